@@ -3,6 +3,7 @@
 package plans
 
 import (
+	"encoding/json"
 	"math/rand"
 
 	"verif/internal/core"
@@ -13,3 +14,8 @@ type Maker func(tier string, seed int64) (*core.Plan, error)
 var Registry = map[string]Maker{}
 
 func rng(seed int64) *rand.Rand { return rand.New(rand.NewSource(seed)) }
+
+func canonJSON(v any) string {
+	b, _ := json.Marshal(v)
+	return string(b)
+}
